@@ -344,6 +344,23 @@ func (f *Frame) enterLoop(b *ssa.BasicBlock, li *loopInfo, st *State, g string, 
 		c := e.freshConst(h, e.heapSort[h])
 		ns.heap[h] = c
 	}
+	// heaps that the body writes only on objects it allocates itself: everything allocated before the loop is unchanged
+	{
+		old := map[string]bool{}
+		for b := range li.body {
+			for _, in := range b.Instrs {
+				for _, h := range e.instrWritesOld(in, f, li.body) {
+					old[h] = true
+				}
+			}
+		}
+		for _, h := range writes {
+			if !old[h] {
+				r := e.fresh("r!lf")
+				e.assume(fmt.Sprintf("(forall ((%s Int)) (! (=> (< %s %s) (= (select %s %s) (select %s %s))) :pattern ((select %s %s)) :qid loopfresh_%s))", r, r, st.alloc, ns.H(h), r, st.H(h), r, ns.H(h), r, sanitize(h)))
+			}
+		}
+	}
 	if e.lockDiscipline {
 		// lock discipline: the state of every guarding mutex is the same at each iteration (checked at the back edges)
 		for _, h := range writes {
